@@ -208,6 +208,88 @@ pub fn judge(ctx: &mut Ctx, ast: &RangeAst, extra_probes: &[MV], stratum_class: 
     ctx.sample(|| json!({"range": text, "stored": r.to_string(), "comparators": des.text(), "tagged": forms, "probes": probes.len()}));
 }
 
+/// Multi-alternative ranges: the gate is per alternative — "inside one alternative whose bounds
+/// it meets". Each alternative is parsed alone to observe its bounds (so no alignment between
+/// the AST and the stored alternatives of the compound range is assumed), and the compound
+/// range must answer like the disjunction of the per-alternative oracle.
+pub fn judge_union(ctx: &mut Ctx, ast: &RangeAst, extra_probes: &[MV]) {
+    let text = ast.plain_text();
+    ctx.begin(|| format!("C03 union range={:?}", text));
+    let r = match guarded(|| Range::parse(&text)) {
+        Ok(Ok(r)) => r,
+        Ok(Err(_)) => {
+            ctx.skip("range does not parse (C01's subject)");
+            return;
+        }
+        Err(p) => {
+            ctx.violation(&format!("panic/{}", p.site), json!({"range": text}), p.message);
+            return;
+        }
+    };
+    // per alternative: (bounds when parsed alone, written tag tuples)
+    let mut parts: Vec<(Option<Bs>, Vec<(u64, u64, u64)>)> = vec![];
+    let mut basis: Vec<MV> = vec![];
+    for a in &ast.alts {
+        let one = RangeAst { alts: vec![a.clone()] };
+        let b = guarded(|| Range::parse(&one.plain_text())).ok().and_then(|x| x.ok()).and_then(|x| bounds(&x).ok());
+        if let Some(b) = &b {
+            if b.0.len() != 1 {
+                ctx.skip("alternative is not a single interval when parsed alone");
+                return;
+            }
+            basis.extend(b.versions());
+        }
+        if let Some(d) = desugar_range(&one) {
+            basis.extend(d.versions());
+        }
+        parts.push((b, written_tag_tuples(&one)));
+    }
+    let mut probes = probe_set(&basis);
+    probes.extend(extra_probes.iter().cloned());
+    // cross probes: the tagged tuples of one alternative with tags before/after, which may fall
+    // inside the bounds of another (untagged) alternative
+    for (_, tags) in &parts {
+        for t in tags {
+            for tag in ["0", "alpha", "rc.1", "zzz"] {
+                probes.push(MV::new(t.0, t.1, t.2).with_pre_s(tag));
+            }
+        }
+    }
+    let forms = tagged_forms(ast);
+    let mut decisive = false;
+    for v in &probes {
+        ctx.eval(1);
+        let want = parts.iter().any(|(b, tags)| b.as_ref().map(|b| b.contains(v)).unwrap_or(false) && (!v.is_pre() || gate_open(tags, v)));
+        let got = r.satisfies(&v.to_crate());
+        // which situation is this probe in? (coverage)
+        let in_untagged_only = v.is_pre() && parts.iter().any(|(b, tags)| b.as_ref().map(|b| b.contains(v)).unwrap_or(false) && !gate_open(tags, v)) && parts.iter().any(|(b, tags)| gate_open(tags, v) && !b.as_ref().map(|b| b.contains(v)).unwrap_or(false));
+        if in_untagged_only {
+            decisive = true;
+            ctx.class("union:tag-in-one-alternative-bounds-in-another");
+        }
+        if got != want {
+            let clause = if !v.is_pre() {
+                "release-affected"
+            } else if got {
+                "gate-leaks-across-alternatives"
+            } else {
+                "gate-blocks-opted-in"
+            };
+            ctx.violation(
+                &format!("union/{}/{}{}", clause, forms, if in_untagged_only { "/tag-and-bounds-in-different-alternatives" } else { "" }),
+                json!({"range": text, "version": v.text()}),
+                format!("range {:?} (stored {}): version {}: per-alternative oracle says {}, crate says {}", text, r, v.text(), want, got),
+            );
+            return;
+        }
+    }
+    ctx.class(&format!("union:alts{}:{}", ast.alts.len(), if forms == "untagged" { "untagged" } else { "tagged" }));
+    if decisive {
+        ctx.nontrivial(&text);
+    }
+    ctx.sample(|| json!({"range": text, "stored": r.to_string(), "probes": probes.len()}));
+}
+
 fn full(ma: u64, mi: u64, pa: u64, pre: &str) -> Partial {
     Partial::full(&MV::new(ma, mi, pa).with_pre_s(pre))
 }
@@ -301,6 +383,50 @@ pub fn run(ctx: &mut Ctx) {
             Alt::Set((0..k).map(|_| Tok::Cmp(*r.pick(ALL_OPS), rand_partial(&mut r, nums))).collect())
         };
         judge(ctx, &RangeAst { alts: vec![alt] }, &[], "random");
+    }
+    // unions: tag in one alternative, bounds in another
+    ctx.stratum("U-unions-directed", true);
+    for t in [(1u64, 5u64, 0u64), (0, 0, 0), (2, 0, 0), (1, 0, 1)] {
+        for tag in ["beta", "0", "rc.1"] {
+            for op in [Op::Bare, Op::Eq, Op::Ge, Op::Gt, Op::Lt, Op::Le, Op::Caret, Op::Tilde] {
+                if !ctx.take() {
+                    continue;
+                }
+                let tagged = Alt::Set(vec![Tok::Cmp(op, full(t.0, t.1, t.2, tag))]);
+                for wide in [
+                    Alt::Set(vec![Tok::Cmp(Op::Ge, full(t.0, 0, 0, "")), Tok::Cmp(Op::Lt, full(t.0 + 1, 0, 0, ""))]),
+                    Alt::Set(vec![Tok::Cmp(Op::Caret, full(t.0, t.1, 0, ""))]),
+                    Alt::Set(vec![Tok::Cmp(Op::Bare, Partial { comps: vec![Xr::Wild('*')], pre: vec![], build: vec![] })]),
+                    Alt::Set(vec![Tok::Cmp(Op::Lt, full(t.0, t.1, t.2 + 3, ""))]),
+                    Alt::Hyphen(full(t.0, 0, 0, ""), full(t.0 + 2, 0, 0, "")),
+                ] {
+                    judge_union(ctx, &RangeAst { alts: vec![wide.clone(), tagged.clone()] }, &[]);
+                    judge_union(ctx, &RangeAst { alts: vec![tagged.clone(), wide.clone()] }, &[]);
+                    judge_union(ctx, &RangeAst { alts: vec![wide.clone(), tagged.clone(), Alt::Set(vec![Tok::Cmp(Op::Gt, full(t.0 + 5, 0, 0, "alpha"))])] }, &[]);
+                }
+            }
+        }
+    }
+    ctx.stratum("U-unions-random", false);
+    let n = ctx.tier.n(20_000, 2_000_000);
+    for i in 0..n {
+        if !ctx.take() {
+            continue;
+        }
+        let mut r = Rng::for_case(ctx.seed, "C03-U", i);
+        let nums: &[u64] = if r.chance(3, 4) { &[0, 1, 2] } else { crate::gen::NUMS_POOL };
+        let k = 2 + r.below(2);
+        let alts: Vec<Alt> = (0..k)
+            .map(|_| {
+                if r.chance(1, 6) {
+                    Alt::Hyphen(rand_partial(&mut r, nums), rand_partial(&mut r, nums))
+                } else {
+                    let m = 1 + r.below(2);
+                    Alt::Set((0..m).map(|_| Tok::Cmp(*r.pick(ALL_OPS), rand_partial(&mut r, nums))).collect())
+                }
+            })
+            .collect();
+        judge_union(ctx, &RangeAst { alts }, &[]);
     }
     // resolver-style use
     ctx.stratum("M-max-min-satisfying-with-gated-prereleases", false);
